@@ -235,6 +235,12 @@ func functionsEqual(x, y any) error {
 	xft, _ := assertReflect(x)
 	yft, _ := assertReflect(y)
 
+	if xft == nil || yft == nil {
+		// an invalid reflect.Value (e.g. what is left of a
+		// nil pointer element) has no type to speak of
+		return errorf("Function kind mismatch")
+	}
+
 	xfk := xft.Kind()
 	yfk := yft.Kind()
 
